@@ -130,7 +130,18 @@ fn run_stream(alpha: &[Elt], seq: &[usize], bytewise: bool, cuts: Option<&[usize
         c.close(&w);
         t
     };
-    let reqs: Vec<Req> = seq.iter().enumerate().map(|(i, e)| alpha[*e].req(0x5000 + i as u32 * 0x11)).collect();
+    // the vbucket field is reserved: every other request carries a non-zero one, nothing may change
+    let reqs: Vec<Req> = seq
+        .iter()
+        .enumerate()
+        .map(|(i, e)| {
+            let mut r = alpha[*e].req(if i == 0 { 0xffff_ffff } else { 0x5000 + i as u32 * 0x11 });
+            if i % 2 == 1 {
+                r.vbucket = 0x0102;
+            }
+            r
+        })
+        .collect();
     let mut bytes = vec![];
     for r in &reqs {
         bytes.extend(r.bytes());
